@@ -1,6 +1,6 @@
 // C16 — text and option parsing never crashes, corrupts memory or hangs on any input
 // VF-VARIANT: san
-// VF-RULE: E2 under ASan+UBSan+libstdc++ assertions: for each entry point (one 'ep:' space each) every letter sequence of length 0..L over that entry point's alphabet of grammar-significant letters (characters, or words for description languages) times every listed option combination is fed to the real code; plus one 'rep:' space per entry point with every word w of 1..3 letters repeated to 64 and to 4096 bytes times every option combination. A case is non-trivial when its input is non-empty. Outcome of every case must be 'returned' or 'raised bpp::Exception'; foreign exceptions are caught by type, sanitizer reports/signals by the supervisor, non-termination by a per-case CPU-time watchdog.
+// VF-RULE: E2 under ASan+UBSan+libstdc++ assertions: for each entry point (one 'ep:' space each) every letter sequence of length 0..L over that entry point's alphabet of grammar-significant letters (characters, or words for description languages) times every listed option combination is fed to the real code; plus one 'rep:' space per entry point with every word w of 1..3 letters repeated to 64 and to 4096 bytes times every option combination. Tables accepted by read() are edited by each of 40 edits, eight of them two- or three-step histories in which a rejected call (wrong cell count, duplicate or too many names) or an assignment is followed by look-ups under the name it carried. A case is non-trivial when its input is non-empty. Outcome of every case must be 'returned' or 'raised bpp::Exception'; foreign exceptions are caught by type, sanitizer reports/signals by the supervisor, non-termination by a per-case CPU-time watchdog.
 // VF-BOUND: byte strings up to 4 KiB are replaced by: all strings of length <= 5 (quick) / <= 7 (thorough) over 2..13 letters per entry point (the length is lowered per entry point so that a space stays under 100k (quick) / 2.5M (thorough) cases — the length actually used is in each space name), plus the repetition families w^k (|w|<=3 letters) of 64 and 4096 bytes. Inputs needing more distinct significant letters than that and lying outside the repetition families are not reached.
 // VF-LEVEL: bounded-exhaustive differential crash check: every listed (entry point, option combination, string) case is executed on the real code under sanitizers; no sampling, no mutation-based search
 // VF-ASSUME: ASan/UBSan/_GLIBCXX_ASSERTIONS detect the memory and arithmetic errors the property names (iterator arithmetic before begin() of a std::string is only seen when the corrupted result is read back);; a case that uses more than 0.1 s (short inputs; typical cases take 1-100 microseconds) / 2 s (4 KiB inputs; typical 0.1-400 ms) of CPU time does not terminate;; the character classification of the C locale
@@ -460,6 +460,36 @@ add("ApplicationTools.range-vector-readers", {"1", "9", ",", "1:3", "9:1", "(", 
       {"DataTable::addColumn(col)", [](DataTable& t) { t.addColumn(vector<string>(t.getNumberOfRows(), "w")); use(t.getColumn(t.getNumberOfColumns() - 1)); }},
       {"DataTable::addColumn(name,col)", [](DataTable& t) { t.addColumn("q", vector<string>(t.getNumberOfRows(), "w")); use(t.getColumn(t.getNumberOfColumns() - 1)); use(t.getColumnNames()); }},
       {"DataTable::addColumn(long col)", [](DataTable& t) { t.addColumn(vector<string>(t.getNumberOfRows() + 1, "z")); }},
+      // a rejected edit followed by look-ups under the name it carried: the table is the caller's and is kept after the exception
+      {"DataTable::addRow(name,long row) rejected, then by-name access", [](DataTable& t) {
+         try { t.addRow("q", vector<string>(t.getNumberOfColumns() + 1, "v")); } catch (bpp::Exception&) {}
+         use(t.hasRow("q")); try { use(t.getRow("q")); } catch (bpp::Exception&) {} try { use(t("q", 0)); } catch (bpp::Exception&) {}
+         try { t.deleteRow("q"); } catch (bpp::Exception&) {} use(t.getNumberOfRows()); if (t.hasRowNames()) use(t.getRowNames()); }},
+      {"DataTable::addRow(existing name,row) rejected, then by-name access", [](DataTable& t) {
+         try { t.addRow("x", vector<string>(t.getNumberOfColumns(), "v")); } catch (bpp::Exception&) {}
+         try { use(t.getRow("x")); } catch (bpp::Exception&) {} try { t.deleteRow("x"); } catch (bpp::Exception&) {} use(t.getNumberOfRows()); if (t.hasRowNames()) use(t.getRowNames()); }},
+      {"DataTable::addColumn(name,long col) rejected, then by-name access", [](DataTable& t) {
+         try { t.addColumn("q", vector<string>(t.getNumberOfRows() + 1, "w")); } catch (bpp::Exception&) {}
+         use(t.hasColumn("q")); try { use(t.getColumn("q")); } catch (bpp::Exception&) {} try { use(t(0, "q")); } catch (bpp::Exception&) {}
+         try { t.deleteColumn("q"); } catch (bpp::Exception&) {} use(t.getNumberOfColumns()); if (t.hasColumnNames()) use(t.getColumnNames()); }},
+      {"DataTable::addColumn(existing name,col) rejected, then by-name access", [](DataTable& t) {
+         try { t.addColumn("x", vector<string>(t.getNumberOfRows(), "w")); } catch (bpp::Exception&) {}
+         try { use(t.getColumn("x")); } catch (bpp::Exception&) {} try { t.deleteColumn("x"); } catch (bpp::Exception&) {} use(t.getNumberOfColumns()); if (t.hasColumnNames()) use(t.getColumnNames()); }},
+      {"DataTable::setRowNames(one name too many) rejected, then names and rows", [](DataTable& t) {
+         try { t.setRowNames(vector<string>(t.getNumberOfRows() + 1, "q")); } catch (bpp::Exception&) {}
+         if (t.hasRowNames()) { use(t.getRowNames()); try { use(t.getRow("q")); } catch (bpp::Exception&) {} } try { use(t.getRow(t.getNumberOfRows() - 1)); } catch (bpp::Exception&) {} }},
+      {"DataTable::setColumnNames(one name too many) rejected, then names and columns", [](DataTable& t) {
+         vector<string> n(t.getNumberOfColumns() + 1); for (size_t i = 0; i < n.size(); ++i) n[i] = "c" + vf::str(i);
+         try { t.setColumnNames(n); } catch (bpp::Exception&) {}
+         if (t.hasColumnNames()) { use(t.getColumnNames()); try { use(t.getColumn("c" + vf::str(n.size() - 1))); } catch (bpp::Exception&) {} } }},
+      {"DataTable::deleteRow(name) twice, addRow(name,row) again", [](DataTable& t) {
+         try { t.deleteRow("x"); } catch (bpp::Exception&) {} try { t.deleteRow("x"); } catch (bpp::Exception&) {}
+         try { t.addRow("x", vector<string>(t.getNumberOfColumns(), "v")); } catch (bpp::Exception&) {} try { use(t.getRow("x")); } catch (bpp::Exception&) {} if (t.hasRowNames()) use(t.getRowNames()); }},
+      {"DataTable::operator= from a table with other names, then by-name access", [](DataTable& t) {
+         DataTable o(2, 1); try { o.setColumnNames({"x"}); o.setRowNames({"q", "y"}); } catch (bpp::Exception&) {}
+         t = o; use(t.getNumberOfRows()); use(t.getNumberOfColumns());
+         if (t.hasRowNames()) use(t.getRowNames()); if (t.hasColumnNames()) use(t.getColumnNames());
+         try { use(t.getRow("y")); } catch (bpp::Exception&) {} try { use(t.getColumn("x")); } catch (bpp::Exception&) {} try { use(t.getRow("x")); } catch (bpp::Exception&) {} try { use(t.getColumn("y")); } catch (bpp::Exception&) {} }},
     };
     vector<string> od2;
     const char* variants[] = {"header=1 rowNames=-1", "header=1 rowNames=0", "header=0 rowNames=-1"};
